@@ -47,13 +47,13 @@ type lockMethod struct {
 	recv types.Object
 	g    *cfg.CFG
 	// facts
-	acquires     bool            // takes the lock itself somewhere
-	accesses     []fieldAccess   // direct guarded accesses
-	calls        []selfCall      // calls to methods on the same receiver
-	stateAt      map[ast.Node][2]int // must/may lock state before node: 0 none 1 R 2 W
-	unreleased   []token.Pos
-	needs        int // for methods that do not lock: strongest access they (transitively) make without holding: 0 none,1 R,2 W
-	mutates      bool // writes receiver state (transitively, same receiver)
+	acquires   bool                // takes the lock itself somewhere
+	accesses   []fieldAccess       // direct guarded accesses
+	calls      []selfCall          // calls to methods on the same receiver
+	stateAt    map[ast.Node][2]int // must/may lock state before node: 0 none 1 R 2 W
+	unreleased []token.Pos
+	needs      int  // for methods that do not lock: strongest access they (transitively) make without holding: 0 none,1 R,2 W
+	mutates    bool // writes receiver state (transitively, same receiver)
 }
 
 type fieldAccess struct {
